@@ -69,6 +69,9 @@ func c16BGVTwins(set c16BGVSet, mark int, copied bool, noise ring.DiscreteGaussi
 	return c16BGVTwin{e2sNoise: mk(iNoise), s2eNoise: mk(2), mask: ring.NewUniformSampler(TwinPRNG(mark, iMask), set.bp.RingT())}
 }
 
+// set by c16BGVRefresh: the refused-call probes of the run, executed once the output ciphertext exists
+var c16BGVRefusals func(out *rlwe.Ciphertext)
+
 type c16BGVFunc struct {
 	name           string
 	decode, encode bool
@@ -134,17 +137,17 @@ func c16BGV(c *Ctx, ns []int) {
 					continue
 				}
 				sigma := []float64{3.2, 25.6}[c.rng.Intn(2)]
-				c16BGVSharing(c, set, n, lin, sigma)
+				c14Guard(c, "C16-harness-panic", "c16BGVSharing", func() { c16BGVSharing(c, set, n, lin, sigma) })
 				lout := c.rng.Intn(set.maxQ() + 1)
-				c16BGVRefresh(c, set, n, lin, lout, sigma, nil, c.rng.Intn(3))
+				c14Guard(c, "C16-harness-panic", "c16BGVRefresh", func() { c16BGVRefresh(c, set, n, lin, lout, sigma, nil, c.rng.Intn(3)) })
 				fn := funcs[c.rng.Intn(len(funcs))]
-				c16BGVRefresh(c, set, n, lin, set.maxQ(), sigma, &fn, c.rng.Intn(3))
+				c14Guard(c, "C16-harness-panic", "c16BGVRefresh", func() { c16BGVRefresh(c, set, n, lin, set.maxQ(), sigma, &fn, c.rng.Intn(3)) })
 			}
 		}
 		if c.Thorough() {
 			for i := range funcs {
 				for lout := 0; lout <= set.maxQ(); lout++ {
-					c16BGVRefresh(c, set, 3, set.maxQ(), lout, 3.2, &funcs[i], i%3)
+					c14Guard(c, "C16-harness-panic", "c16BGVRefresh", func() { c16BGVRefresh(c, set, 3, set.maxQ(), lout, 3.2, &funcs[i], i%3) })
 				}
 			}
 		}
@@ -258,7 +261,8 @@ func c16BGVSharing(c *Ctx, set c16BGVSet, n, lvl int, sigma float64) {
 		c16Record(fmt.Sprintf("bgv_e2s copy=%t sigma=%g", copiedAll[i], sigma),
 			c16Residual(params, lvl, true, pub[i].Value, []c16Term{{ct.Value[1], keys.sk[i], 1}}, nil, []ring.Poly{c16BGVEmbed(set, lvl, c16T(sec[i].Value))}))
 		if !slices.Equal(c16T(m), c16T(sec[i].Value)) {
-			panic("c16: twin mask differs from the protocol's secret share")
+			c.Probe("twin_replay", fmt.Sprintf("bgv mask set=%s party=%d", set.name, i), "C16-twin-replay", "twin_mask_differs_from_the_protocol's_secret_share")
+			copy(m.Coeffs[0], sec[i].Value.Coeffs[0])
 		}
 		rows[i] = Mat(c16QRows(params, pub[i].Value, lvl, true))
 		c.Emit(fmt.Sprintf("bgv_e2s %s %s %s %s %s", hdr, c1, IVec(keys.s[i]), IVec(e), Vec(c16T(m))), rows[i])
@@ -369,6 +373,16 @@ func c16BGVSharing(c *Ctx, set c16BGVSet, n, lvl int, sigma float64) {
 			}
 		}
 		c.Probe("e2s_s2e_id", fmt.Sprintf("bgv set=%s N=%d lvl=%d lout=%d sigma=%g scale=%d", set.name, n, lvl, lout, sigma, scale), "C16-bgv-s2e", detail)
+		// refused calls keep their receivers
+		lab := fmt.Sprintf("bgv set=%s lout=%d", set.name, lout)
+		if ol := c16OtherLevel(set.maxQ(), lout); ol >= 0 {
+			crp2 := s2e[0].SampleCRP(ol, crs)
+			c14Refused(c, "C16:mpbgv.ShareToEncProtocol.GenShare", "crp_level", lab, func() string { return c16PolySnap(sh[0].Value) },
+				func() error { return s2e[0].GenShare(keys.sk[0], crp2, final[0], &sh[0]) })
+		}
+		deg2 := c14RandCt(c, params, 2, lout)
+		c14Refused(c, "C16:mpbgv.ShareToEncProtocol.GetEncryption", "receiver_degree", lab, func() string { return c16CtSnap(deg2) },
+			func() error { return s2e[0].GetEncryption(aggO, crp, deg2) })
 	}
 }
 
@@ -490,6 +504,33 @@ func c16BGVRefresh(c *Ctx, set c16BGVSet, n, lin, lout int, sigma float64, fn *c
 		return protos[0].Transform(ct.CopyNew(), tf, crp, ag, o)
 	}, n)
 
+	c16BGVRefusals = func(out *rlwe.Ciphertext) {
+		lab := fmt.Sprintf("bgv set=%s lin=%d lout=%d", set.name, lin, lout)
+		aggSnap := func() string { return c16RefreshSnap(&agg) }
+		shSnap := func() string { return c16RefreshSnap(&shares[0]) }
+		outSnap := func() string { return c16CtSnap(out) }
+		if ol := c16OtherLevel(set.maxQ(), lin); ol >= 0 {
+			bad := protos[0].AllocateShare(ol, lout)
+			c14Refused(c, "C16:mpbgv.MaskedTransformProtocol.AggregateShares", "e2s_level", lab, aggSnap, func() error { return protos[0].AggregateShares(bad, shares[0], &agg) })
+		}
+		if ol := c16OtherLevel(set.maxQ(), lout); ol >= 0 {
+			bad := protos[0].AllocateShare(lin, ol)
+			c14Refused(c, "C16:mpbgv.MaskedTransformProtocol.AggregateShares", "s2e_level", lab, aggSnap, func() error { return protos[0].AggregateShares(shares[0], bad, &agg) })
+			crp2 := protos[0].SampleCRP(ol, crs)
+			c14Refused(c, "C16:mpbgv.MaskedTransformProtocol.GenShare", "crs_level", lab, shSnap, func() error { return protos[0].GenShare(keys.sk[0], keys.sk[0], ct, crp2, tf, &shares[0]) })
+			c14Refused(c, "C16:mpbgv.MaskedTransformProtocol.Transform", "crs_level", lab, outSnap, func() error { return protos[0].Transform(ct.CopyNew(), tf, crp2, agg, out) })
+		}
+		if lin > 0 {
+			low := ct.CopyNew()
+			low.Resize(1, lin-1)
+			c14Refused(c, "C16:mpbgv.MaskedTransformProtocol.GenShare", "ct_below_share_level", lab, shSnap, func() error { return protos[0].GenShare(keys.sk[0], keys.sk[0], low, crp, tf, &shares[0]) })
+			c14Refused(c, "C16:mpbgv.MaskedTransformProtocol.Transform", "ct_below_share_level", lab, outSnap, func() error { return protos[0].Transform(low, tf, crp, agg, out) })
+		}
+		other := agg
+		other.MetaData.Scale = rlwe.NewScaleModT(7, set.t)
+		c14Refused(c, "C16:mpbgv.MaskedTransformProtocol.Transform", "metadata", lab, outSnap, func() error { return protos[0].Transform(ct.CopyNew(), tf, crp, other, out) })
+	}
+
 	// the masked plaintext the finalisation works on (pure function of public values)
 	e2s, _ := mpbgv.NewEncToShareProtocol(set.bp, flood)
 	maskedShare := mpbgv.NewAdditiveShare(set.bp)
@@ -594,4 +635,7 @@ func c16BGVRefresh(c *Ctx, set c16BGVSet, n, lin, lout int, sigma float64, fn *c
 	}
 	c.Probe(probe, fmt.Sprintf("bgv set=%s f=%s N=%d lin=%d lout=%d sigma=%g scale=%d out=%s", set.name, name, n, lin, lout, sigma, scale,
 		[]string{"in_place", "fresh_with_metadata", "fresh_as_allocated"}[mode]), key, detail)
+	if detail == "" && mode != 0 {
+		c16BGVRefusals(out)
+	}
 }
